@@ -1,3 +1,4 @@
+import NfpmModel.Spec.ArchiveSpec
 import NfpmModel.Lemmas.ArchiveLemmas
 import NfpmModel.Lemmas.ArLemmas
 import NfpmModel.Lemmas.TarLemmas
@@ -838,6 +839,75 @@ theorem names_unique (O : Oracle) (cfg : PlanCfg) (raw l : List Content) (h : pl
   · rw [← hb, List.pairwise_map] at hnd
     rw [List.nodup_iff_pairwise_ne, List.pairwise_map]
     exact hnd.imp (fun {a b} hab e => hab (by rw [e]))
+
+/-- the path a planned entry's member name stands for is `normFile x` without its leading slash -/
+theorem strip_name (c : Content) (n x : Bytes) (hx : rcomps x ≠ [])
+    (hd : c.dst = if isDirType c.type then normDir x else normFile x) (hn : slash :: n = c.dst) :
+    slash :: stripSlash n = normFile x := by
+  have hlast := joinWith_getLast_ne_slash (rcomps x) hx (rcomps_proper x)
+  by_cases ht : isDirType c.type = true
+  · rw [if_pos ht, normDir_eq] at hd
+    rw [hd] at hn
+    have hn' : n = joinWith slash (rcomps x) ++ [slash] := by simpa using hn
+    unfold stripSlash endsWithSlash
+    rw [hn', normFile_eq]
+    simp
+  · rw [if_neg ht, normFile_eq] at hd
+    rw [hd] at hn
+    have hn' : n = joinWith slash (rcomps x) := by simpa using hn
+    unfold stripSlash endsWithSlash
+    rw [hn', normFile_eq]
+    have : ((joinWith slash (rcomps x)).getLast? == some slash) = false := by
+      rw [beq_eq_false_iff_ne]; exact hlast
+    simp [this]
+
+
+/-- **one path is one member**: in the archive written for an accepted plan no two members stand for the same path – not
+    even a directory `a/b/` next to a non-directory `a/b`. For EVERY content list (tree entries, globs, any order):
+    follows from the strictly increasing destinations and `C05.plan_no_path_clash`. -/
+theorem names_one_path_one_member (O : Oracle) (cfg : PlanCfg) (raw l : List Content) (h : plan O cfg raw = .ok l)
+    (hp : ∀ c ∈ l, Planned c) :
+    ((apkMembers l).map (fun m => stripSlash m.name)).Nodup ∧ ((archMembers l).map (fun m => stripSlash m.name)).Nodup := by
+  obtain ⟨m, _, hl, hinv⟩ := plan_ok_inv O cfg raw l h
+  have hs : (l.map (·.dst)).Pairwise (fun a b => ltB a b = true) := by rw [hl]; exact sorted_values cfg.packager m hinv
+  have hnd : l.Pairwise (fun a b => a.dst ≠ b.dst) := by
+    have := hs.imp (fun {a b} hab => ltB_ne a b hab)
+    rwa [List.pairwise_map] at this
+  have hclash := C05.plan_no_path_clash O cfg raw l h
+  -- the general step: for any naming function that puts the planned destination back under "/"
+  have key : ∀ (nm : Content → Bytes), (∀ c ∈ l, slash :: nm c = c.dst) →
+      (l.map (fun c => stripSlash (nm c))).Nodup := by
+    intro nm hnm
+    rw [List.nodup_iff_pairwise_ne, List.pairwise_map]
+    have hmem : l.Pairwise (fun a b => a ∈ l ∧ b ∈ l) := by
+      rw [List.pairwise_iff_forall_sublist]
+      intro a b hab
+      exact ⟨hab.subset (by simp), hab.subset (by simp)⟩
+    refine (hnd.and hmem).imp ?_
+    intro a b ⟨hab, ha, hb⟩ e
+    obtain ⟨x, hx, hdx⟩ := hp a ha
+    obtain ⟨y, hy, hdy⟩ := hp b hb
+    have ea := strip_name a (nm a) x hx hdx (hnm a ha)
+    have eb := strip_name b (nm b) y hy hdy (hnm b hb)
+    have exy : normFile x = normFile y := by rw [← ea, ← eb, e]
+    by_cases ta : isDirType a.type = true <;> by_cases tb : isDirType b.type = true
+    · rw [if_pos ta] at hdx; rw [if_pos tb] at hdy
+      exact hab (by rw [hdx, hdy, normDir_of_normFile_eq x y exy])
+    · rw [if_pos ta] at hdx; rw [if_neg tb] at hdy
+      refine hclash y ⟨?_, ?_⟩
+      · rw [← hdy]; exact List.mem_map_of_mem hb
+      · rw [← normDir_of_normFile_eq x y exy, ← hdx]; exact List.mem_map_of_mem ha
+    · rw [if_neg ta] at hdx; rw [if_pos tb] at hdy
+      refine hclash x ⟨?_, ?_⟩
+      · rw [← hdx]; exact List.mem_map_of_mem ha
+      · rw [normDir_of_normFile_eq x y exy, ← hdy]; exact List.mem_map_of_mem hb
+    · rw [if_neg ta] at hdx; rw [if_neg tb] at hdy
+      exact hab (by rw [hdx, hdy, exy])
+  constructor
+  · have := key (fun c => (apkMember1 c).name) (fun c hc => apk_member_name c (hp c hc))
+    simpa [apkMembers, List.map_map, Function.comp_def] using this
+  · have := key (fun c => (archMember1 c).name) (fun c hc => arch_member_name c (hp c hc))
+    simpa [archMembers, List.map_map, Function.comp_def] using this
 
 /-- **parents precede children** (`_partial` as in C05: plans without `tree` entries): the member names,
     put back under "/", are the plan's destinations in plan order, for which C05 proves that every
